@@ -19,6 +19,7 @@
 //           Condition variables never wake spuriously; notify_one wakes a strategy-chosen
 //           waiter. Executions are sequentially consistent.
 #pragma once
+#define VERIF_DSCHED 1
 
 #include <atomic>
 #include <chrono>
